@@ -15,7 +15,17 @@ def run(prop, tier):
     v.functions = FUNCS
     known = common.load_known(prop)
     pres = [None, 0x32, 0x25] if tier == "quick" else [None] + list(asmrt.PRE_BYTES)
-    units = [dict(pre=p, opcode=op, thorough=(tier != "quick"), replayer="contracts.asmrt:replay") for p in pres for op in range(256) if op not in asmrt.PRE_BYTES]
+    if tier == "quick":
+        # every opcode without prefix; under each of the 15 prefixes the opcodes with an internal-memory
+        # operand (a prefix in front of the others is the listed 'useless prefix' class: a few samples)
+        from props import cpu_props
+        im = cpu_props.imem_opcodes()
+        sel = [(None, op) for op in range(256) if op not in asmrt.PRE_BYTES]
+        sel += [(p, op) for p in asmrt.PRE_BYTES for op in sorted(im) if op not in asmrt.PRE_BYTES]
+        sel += [(0x32, op) for op in (0x08, 0x90, 0xFD, 0x12, 0x04) if op not in im]
+        units = [dict(pre=p, opcode=op, thorough=False, thin=(p is not None), replayer="contracts.asmrt:replay") for p, op in sel]
+    else:
+        units = [dict(pre=p, opcode=op, thorough=True, replayer="contracts.asmrt:replay") for p in pres for op in range(256) if op not in asmrt.PRE_BYTES]
     heavy = {0xC8, 0xC9, 0xCA, 0xCB, 0xCF, 0xC0, 0xC1, 0xC2, 0xC3, 0xC4, 0xD4, 0x54, 0x5C, 0x6E, 0x76, 0x7E, 0xB7, 0xC6, 0xC7, 0xD0, 0xD1, 0xD2, 0xD3, 0xD8, 0xD9, 0xDA, 0xDB, 0xCC, 0xCD, 0xDC}
     units.sort(key=lambda u: 0 if u["opcode"] in heavy else 1)
     units = [dict(fn="unit_listing", pre=p, per_opcode=4 if tier == "quick" else 12, replayer="contracts.asmrt:replay_listing") for p in pres] + units
